@@ -27,8 +27,13 @@ static void on_destroy(json_object *o, void *ud)
 	__sync_add_and_fetch(&destroyed[(intptr_t)ud], 1);
 }
 static __thread int my_tid = 0;
+/* the first `sentinel_draws` candidates drawn in the process are -1, the value json-c uses for "no seed chosen yet":
+ * a draw of the sentinel must be repeated, never published (else the seed would be chosen a second time later) */
+static int sentinel_draws;
 int vh_seed_candidate(void)
 {
+	if (sentinel_draws > 0 && __sync_fetch_and_sub(&sentinel_draws, 1) > 0)
+		return -1;
 	/* distinct per thread; dawdle so that several threads are inside the window together */
 	for (int i = 0; i < 50; i++)
 		sched_yield();
@@ -357,6 +362,7 @@ int main(int argc, char **argv)
 	if (argc >= 3 && !strcmp(argv[1], "seed"))
 	{
 		T = atoi(argv[2]);
+		sentinel_draws = argc >= 4 ? atoi(argv[3]) : 0;
 		return run_seed();
 	}
 	if (argc >= 4 && !strcmp(argv[1], "disjoint"))
